@@ -12,9 +12,9 @@ RULE = ("programs over the full grammar (literals, operators, declarations, assi
         "value graph, output, error kind, step count, ledger - and (3) through the definitional evaluator Sem.v on the "
         "parsed tree inside Coq: value graph, output and error kind (raised after the same output) must agree. "
         "non-trivial = distinct program that compiles")
-ASSUMPTIONS = ["compile_correct is proved for fragment F1 only (top-level scalar code); outside it C01 is per-program validation against Sem.v, not proof",
+ASSUMPTIONS = ["compile_correct is proved for the fragments F3 (scalars + functions) and F2h (top-level heap values + builtins); outside them C01 is per-program validation against Sem.v, not proof",
                "Sem.v reuses the value-level functions of Ops.v/Builtins.v, which C06/C14 tie to their own specifications"]
-NOTES = ["proved: compile_correct_partial (fragment F1), compile_expr_correct_F1a (any compiler/machine state), compile_reject_F1, static_reject_F1"]
+NOTES = ["proved: compile_correct_partial (= compile_correct_F3), compile_correct_F2h, compile_correct_F2, compile_correct_F1, compile_expr_correct_F1a (any compiler/machine state), static acceptance/rejection"]
 
 DIRECTED = [
     "1 + 2 * 3", "(1 + 2) * 3", "-1 < 1", "10 - 3 - 2", "stel a = 1; stel a = 2; a", "stel a = 5; a = a + 1; a * 2",
@@ -71,6 +71,9 @@ def in_f1(ast):
 
 
 def run(ctx, log):
+    # the same small programs at every size around the widths the implementation encodes things in (closed-form results)
+    progcheck.run_scale(ctx, log, ['constants', 'locals', 'args', 'statements', 'nesting', 'rtnest', 'objects'])
+    progcheck.run_code_boundary(ctx, log)
     rng = ctx.rng
     progs = [open(f, encoding="utf-8").read() for f in sorted(glob.glob(os.path.join(vlib.REPO, "examples", "*.nl"))) if "recursive" not in f]
     progs += DIRECTED
@@ -90,7 +93,9 @@ def run(ctx, log):
     f1 = n_small      # counted below for generated programs too
     srcs, asts = progcheck.gen_sources(ctx, 1200 if ctx.quick else 30000, max_depth=3)
     srcs2, asts2 = progcheck.gen_sources(ctx, 300 if ctx.quick else 10000, max_depth=2, funcs=False, loops=False, prints=False, floats=False, alloc=0.0)
-    progs += srcs + srcs2
+    # the same with names borrowed from anywhere in the program for parameters, locals and (nested) functions
+    srcs3, asts3 = progcheck.gen_sources(ctx, 500 if ctx.quick else 12000, max_depth=3, collide=0.4)
+    progs += srcs3 + srcs + srcs2
     inside = sum(1 for a in asts + asts2 if in_f1(a)) + sum(1 for e in small if e[0] != "str" and "str" not in str(e))
     obs = progcheck.pipeline(ctx, progs, log, budget=30000, label="programs")
     ncomp = 0
